@@ -21,6 +21,10 @@ def _names(kind, seed, tid):
     return memodriver.run_names(kind, seed, tid)
 
 
+def _busy(kind, fails, seed, tid):
+    return memodriver.run_busy(kind, fails, seed, tid)
+
+
 def _stamp(seed, tid):
     return memodriver.run_stampede(seed, tid)
 
@@ -96,6 +100,12 @@ def run(prop, tier, seed):
             tid += 1
             nj.append((kind, 2 * seed + variant, tid))
     traces += pmap(_names, nj, procs=5)
+    bj = []
+    for kind in KINDS:
+        for fails in (1, 3):            # the lock held by another client until the n-th failed attempt of the lookup
+            tid += 1
+            bj.append((kind, fails, seed, tid))
+    traces += pmap(_busy, bj, procs=10)
     tid += 1
     traces += pmap(_stamp, [(seed, tid)], procs=1)
     out.traces = len(traces)
